@@ -190,6 +190,12 @@ def family_configs(fam, centres, tier):
                            'outer_height': h, 'angle': a, 'adeg': d, 'size_dtype': dt}, allm
                 yield {'cls': 'circle', 'center': c, 'radius': w, 'size_dtype': dt}, allm
                 yield {'cls': 'circleannulus', 'center': c, 'inner_radius': h // 2, 'outer_radius': max(w, h), 'size_dtype': dt}, allm
+                # ... and an integer-typed centre next to the typed sizes
+                ci = [int(round(c[0])), int(round(c[1]))]
+                yield {'cls': 'circle', 'center': ci, 'radius': w, 'size_dtype': dt}, allm
+                yield {'cls': 'circleannulus', 'center': ci, 'inner_radius': h // 2, 'outer_radius': max(w, h), 'size_dtype': dt}, allm
+                yield {'cls': 'ellipse', 'center': ci, 'width': w, 'height': h, 'angle': A[1][1], 'adeg': A[1][0], 'size_dtype': dt}, allm
+                yield {'cls': 'rectangle', 'center': ci, 'width': w, 'height': h, 'angle': A[1][1], 'adeg': A[1][0], 'size_dtype': dt}, allm
             for r in S:
                 yield {'cls': 'circle', 'center': c, 'radius': r}, allm
             for ri in S:
